@@ -533,6 +533,21 @@ func (c *fsClient) Inline(callee *ssa.Function) bool {
 
 func (c *fsClient) OnStore(x *Exec, st *State, fr *Frame, pos token.Pos, addr, val, old *Term) {
 	g := c.g(st)
+	// LOCK-OWN (collection): a lock path whose exclusive create failed on this
+	// path must not be recorded among the locks this operation will release
+	if val != nil && val.Op == "list" {
+		for _, m := range val.Args {
+			if _, failed := g.failed[gk(m)]; !failed {
+				continue
+			}
+			if _, held := g.held[gk(m)]; held {
+				continue
+			}
+			if k := c.kind(st, m); k == kSubLock || k == kListLock || k == kOtherLck {
+				c.violate(st, "LOCK-OWN", c.entry+" / a lock that was not acquired is recorded for release", pos, fmt.Sprintf("lock file %s is put on the list of locks to remove on a path on which its O_EXCL creation failed: the lock of another handle will be deleted and the tables it protects rewritten", k))
+			}
+		}
+	}
 	// RELOAD-COMPLETE bookkeeping: a list of readers grows by a reader for the drawn name
 	if val.Op == "list" && len(x.marks) > 0 {
 		cur := x.curMark()
